@@ -217,6 +217,16 @@ def _main_child(case):
         cfg = case["config"]
         if cfg == "ABS":
             cfg = os.path.join(core.REPO, "ethosu", "config_files", "Arm", "vela.ini")
+        elif cfg in ("USERABS", "USERREL"):
+            # the user's own file, whose last two path components equal those of the bundled Arm/vela.ini
+            proj = os.path.join(d, "work", "proj")
+            os.makedirs(os.path.join(proj, "Arm"))
+            open(os.path.join(proj, "Arm", "vela.ini"), "w").write(OTHER_INI)
+            cfg = os.path.join(proj, "Arm", "vela.ini")
+            if case["config"] == "USERREL":
+                if cwd in ("/",) or not os.path.isdir(cwd):
+                    cwd = os.path.join(d, "work")
+                cfg = os.path.relpath(cfg, cwd)
         args = [src, "--output-dir", os.path.join(d, "out"), "--accelerator-config", case["acc"], "--config", cfg, "--system-config", case["sys"],
                 "--memory-mode", case["mem"], "--verbose-config"] + case.get("extra", [])
         os.chdir(cwd)
@@ -240,6 +250,10 @@ def main_cases():
                         continue
                     for extra, cli in (([], None), (["--arena-cache-size", "65536"], 65536), (["--arena-cache-size", "0"], 0)):
                         out.append(dict(acc=acc, sys=sysc, cwd=cwd, config=cfg, mem=mem, extra=extra, file_size=file_size, cli=cli))
+    for cwd in (core.REPO, "/"):
+        for cfg in ("USERABS", "USERREL"):
+            for extra, cli in (([], None), (["--arena-cache-size", "65536"], 65536)):
+                out.append(dict(acc="ethos-u55-128", sys="Ethos_U55_High_End_Embedded", cwd=cwd, config=cfg, mem="Shared_Sram", extra=extra, file_size=7777, cli=cli, clock=123e6))
     return out
 
 
@@ -256,9 +270,9 @@ def judge_main(case, res, text):
         return "main-noverbose", "no --verbose-config output"
     size, src = int(m.group(1)), m.group(2).strip()
     clock = float(c.group(1))
-    exp_clock = 500e6 if "u55" in case["acc"] else 1e9
+    exp_clock = case.get("clock") or (500e6 if "u55" in case["acc"] else 1e9)
     if abs(clock - exp_clock) > 1:
-        return "main-wrong-file", "core_clock %s: a file other than the bundled %s was read (cwd=%s)" % (clock, case["config"], case["cwd"])
+        return "main-wrong-file", "core_clock %s (expected %s): a file other than the one named by --config %s was read (cwd=%s)" % (clock, exp_clock, case["config"], case["cwd"])
     max_off = (1 << 40) if "u65" in case["acc"] else (1 << 32)
     exp_size = case["cli"] if case["cli"] is not None else (case["file_size"] if case["file_size"] is not None else max_off)
     if size != exp_size:
